@@ -198,8 +198,50 @@ def add_escaping_handler(rng, prog):
     return True
 
 
+def x_deferred(ctx, case):
+    """Stages and cleanups that return Deferreds (AsynchronousDeferredRunTest on the virtual-time reactor),
+    including cleanups registered when a stage's Deferred fires: the same clauses - test and tearDown iff
+    setUp completed normally, every registered cleanup exactly once, LIFO, none left registered."""
+    from . import c14
+    from .. import vreactor
+    prog = case["prog"]
+    reactor = vreactor.make_reactor()
+    stagelog = []
+    the_case = c14.build_case(prog, reactor, stagelog)
+    log = recorders.Log()
+    try:
+        the_case.run(recorders.ExtRecorder(log))
+        propagated = None
+    except BaseException as e:  # noqa
+        propagated = e
+    m = c14.model(prog)
+    if m["kind"] != "ok":
+        return False        # timeouts are C14's concern
+    entered = [n for k, n, t in stagelog if k == "enter"]
+    detail = lambda: {"prog": prog, "entered": entered, "want": m["ran"], "propagated": repr(propagated)}  # noqa
+    stages = [n for n in entered if n in ("setUp", "test", "tearDown")]
+    ctx.check(stages == [n for n in m["ran"] if n in ("setUp", "test", "tearDown")],
+              "stage.test-and-tearDown-iff-setUp-ok", detail)
+    ctx.check([n for n in entered if n not in stages] == [n for n in m["ran"] if n not in ("setUp", "test", "tearDown")],
+              "cleanup.each-exactly-once", detail)
+    left = list(getattr(the_case, "_cleanups", []))
+    ctx.check(not left, "cleanup.none-left-registered", lambda: {"left": len(left), **detail()})
+    return True
+
+
+SUBCHECKS["deferred"] = x_deferred
+
+
 def run(ctx):
     rng = ctx.rng
+    n = 0
+    from . import c14
+    for prog in c14.late_cleanup_programs():
+        if ctx.mine():
+            n += 1
+            ctx.execute("deferred", {"prog": prog})
+    ctx.note_space("Deferred-returning stages under AsynchronousDeferredRunTest with cleanups registered when a stage "
+                   "completes, and setUp failing before a Deferred-returning cleanup", n)
     n = 0
     stride = 1 if not ctx.quick else 5
     for i, t in enumerate(progen.enum_triples()):
@@ -223,6 +265,25 @@ def run(ctx):
                                                           "beh2": b2, "body": body}})
     ctx.note_space("2 cleanups x 6 registration sites each x %d behaviours each x 3 test-method "
                    "behaviours" % len(behs), n)
+    # exceptions deriving from BaseException directly (asyncio.CancelledError, GeneratorExit style), at every
+    # stage, with cleanups registered before and around them, a patch and keyword-argument cleanups; every runner
+    n = 0
+    for stage in ("su", "test", "td", "c_first", "c_last"):
+        for kind in ("basedirect", "kbdsub", "exit"):
+            for runner in (None, "sync", "async"):
+                if not ctx.mine():
+                    continue
+                n += 1
+                r = ["raise", kind, "<<B1>>"]
+                prog = {"scratch": {"a": 0}, "su_pre": [["cleanup", "c1", [r] if stage == "c_first" else []],
+                                                        ["patch", "a", "patched"],
+                                                        ["cleanup", "c2", [], "kw"]],
+                        "su": [], "test": [["cleanup", "c3", []]], "td_pre": [],
+                        "td": [["cleanup", "c4", [r] if stage == "c_last" else []]]}
+                if stage in ("su", "test", "td"):
+                    prog[stage].append(r)
+                ctx.execute("prog", {"prog": prog, "runner": runner} if runner else {"prog": prog})
+    ctx.note_space("BaseException-derived raise (3 kinds) at 5 places among 4 cleanups and a patch x 3 runners", n)
     ctx.notes["random_cases"] = True
     for i in range(ctx.scale(1500, 150000)):
         if ctx.out_of_time():
